@@ -54,9 +54,6 @@ theorem C02_embed_keeps_identity (id : Nat) (xs : List PV) (kvs : List (PV × PV
     embed (.set id xs) = .set (some id) (xs.map embed) ∧ embed (.dict id kvs) = .dict (some id) (embedKVs kvs) := by
   simp [embed, embedList_eq_map]
 
-theorem strict_ok {args : List Val} (h : args.any Val.isFail = false) (r : Val) : strict args r = r := by
-  simp [strict, h]
-
 /-- **Rebuilt containers are exactly of the built-in type, with a fresh identity.**  If the container contains a
     node and no component fails: a `list`/`tuple` of the substituted children in order; a `set` built by
     `set(children)` (insertion order, an element equal to an earlier one is dropped) — a TypeError (`fail`) if a
@@ -67,23 +64,6 @@ theorem C02_rebuilt_exact_type (ρ : Nat → Val) (id : Nat) (xs : List PV) (hc 
     subst ρ (.tuple id xs) = .tuple none (xs.map (subst ρ)) ∧
     subst ρ (.set id xs) = (if Val.hashableAll (xs.map (subst ρ)) then .set none (Val.pySet (xs.map (subst ρ))) else .fail) := by
   simp only [subst, hc, if_true, substList_eq_map, strict_ok hf, Val.build, and_self]
-
-theorem toPairs_substKVs (ρ : Nat → Val) : ∀ (kvs : List (PV × PV)),
-    (kvs.all fun p => !(subst ρ p.1).isFail && !(subst ρ p.2).isFail) = true →
-    Val.toPairs (substKVs ρ kvs) = some (kvs.map fun p => (subst ρ p.1, subst ρ p.2)) ∧
-      (substKVs ρ kvs).any Val.isFail = false
-  | [], _ => by simp [substKVs, Val.toPairs]
-  | (k, v) :: rest, h => by
-    simp only [List.all_cons, Bool.and_eq_true, Bool.not_eq_true'] at h
-    obtain ⟨ih1, ih2⟩ := toPairs_substKVs ρ rest h.2
-    cases hc : (k.containsNode || v.containsNode)
-    · simp only [Bool.or_eq_false_iff] at hc
-      simp [substKVs, hc, embed, embedList, Val.toPairs, ih1, ih2, subst_nodefree ρ hc.1, subst_nodefree ρ hc.2,
-        Val.isFail]
-    · have hs : strict [subst ρ k, subst ρ v] (Val.build .tuple [subst ρ k, subst ρ v])
-          = .tuple none [subst ρ k, subst ρ v] := by
-        simp [strict, h.1.1, h.1.2, Val.build]
-      simp [substKVs, hc, hs, Val.toPairs, ih1, ih2, Val.isFail]
 
 /-- **A rebuilt dict** is `dict(items)` of the substituted `(key, value)` pairs in the order of `.items()`:
     of two keys that become equal the first key object stays and the last value wins (`pyDict`); an unhashable
@@ -207,8 +187,6 @@ def exV : PV :=
 
 /-- node 4 = `f4(n1, n0, zz=n1, a=n0, k=n1)`: keyword order, one node used three times -/
 def exSt2 : PlanSt := (addCall exSt (.user 4) [.node 1, .node 0] [("zz", .node 1), ("a", .node 0), ("k", .node 1)]).1
-
-instance (st : PlanSt) : Decidable (WF st) := by unfold WF; exact inferInstance
 
 example : WF exSt := by decide
 example : WF exSt2 := by decide
